@@ -106,9 +106,13 @@ class Engine:
                 self.communicator.subscribe_timeouts.add(kind)
             self.controller = plumpy.RemoteProcessController(self.communicator)
             self.thread_controller = plumpy.RemoteProcessThreadController(self.communicator)
+        process_communicator = self.communicator
+        if self.communicator is not None and self.opts.get('wrap'):
+            # the process talks through plumpy's own LoopCommunicator wrapper (subscriber callbacks are scheduled on the loop)
+            process_communicator = plumpy.wrap_communicator(self.communicator, self.loop)
         try:
             self.proc = self.cls(inputs=self.case['program'].get('inputs'), pid=self.opts.get('pid'), loop=self.loop,
-                                 communicator=self.communicator)
+                                 communicator=process_communicator)
         except Exception as exc:  # noqa: BLE001 - construction faults are judged by C03
             self.construct_error = exc
             return False
